@@ -567,3 +567,32 @@ Proof.
   intros H. destruct (trunc_stream_concat_gen _ _ _ _ (init_inv o) H) as (st' & m' & S).
   unfold truncate. rewrite S. reflexivity.
 Qed.
+
+(** ** StreamSearch with a collecting phase: the flushed aggregate goes through limitSender's
+    truncator once more; that second truncation is the identity *)
+Lemma truncate_nil o : truncate o [] = Ok [].
+Proof.
+  rewrite truncate_unfold. unfold dlimit. destruct (match_limited o), (doc_limited o); simpl; rewrite ?firstn_nil; reflexivity.
+Qed.
+
+Definition trunc_fixed (o : topts) (agg : list file) : Prop := truncate o agg = Ok agg.
+
+Lemma collect_sends_fixed o bs agg r :
+  has_limits o = true -> trunc_fixed o agg -> collect_sends o agg bs = Ok r -> trunc_fixed o r.
+Proof.
+  intros HL. revert agg r. induction bs as [|b rest IH]; intros agg r HA; simpl.
+  - intros H; injection H as <-. exact HA.
+  - unfold collect_send. destruct b as [|f b].
+    + simpl. apply IH. exact HA.
+    + rewrite HL. destruct (sort_and_truncate o (agg ++ f :: b)) as [agg'| |] eqn:E; simpl; try discriminate.
+      apply IH. unfold trunc_fixed. unfold sort_and_truncate in E.
+      now destruct (truncate_spec _ _ _ E) as (_ & _ & _ & _ & _ & I).
+Qed.
+
+Theorem collect_then_truncate o bs r : collect o bs = Ok r -> truncate o r = Ok r.
+Proof.
+  unfold collect. destruct (collect_sends o [] bs) as [agg| |] eqn:E; simpl; try discriminate.
+  destruct (has_limits o) eqn:HL.
+  - intros H; injection H as <-. eapply collect_sends_fixed; eauto. unfold trunc_fixed. apply truncate_nil.
+  - intros H. unfold sort_and_truncate in H. now destruct (truncate_spec _ _ _ H) as (_ & _ & _ & _ & _ & I).
+Qed.
